@@ -66,6 +66,27 @@ def explore_c20(spec, res, a):
     return V.standard_explore(spec, res, a, [("h_tables", args)])
 
 
+def explore_reasm(spec, res, a):
+    n = 1500 if a.tier == "quick" else 40000
+    return V.standard_explore(spec, res, a, [("h_reasm", ["-seed", str(res.seed), "-n", str(n)])])
+
+
+REASM_RULE = ("histories of 5..45 calls (PushMessage, Push(raw), nil and malformed pushes, Maintain, Close incl. mid-history and repeated) generated from one splitmix64 state per case: "
+              "window base in {0,1,2,2^32-41..2^32-1,2^31,2^24-2,2^24,random}, spread in {8,30,1000,2^24-1}, duplicates, late arrivals, gaps, "
+              "record types across the completion boundaries (1299/1300, 2099/2100, PROCTITLE, EOE), maxInFlight in {0,1,2,3,5,11,40}, "
+              "timeouts in {-1s,0,30ms (with real 70ms sleeps),1h}; 'hostile' and 'restart' streams draw sequences from all of uint32 (maxInFlight <= 11 so that Go's sort is the insertion sort the model has). "
+              "non-trivial = at least two callbacks were made; distinct by the whole case term")
+REASM_ASSUME = ["clock readings of the implementation lie between the harness's stamps taken before and after each call; a case whose expiry comparisons are not decided by the stamps is discarded (counted in coverage.discarded_ambiguous)",
+                "sort.Sort on at most 12 elements is insertion sort (Go runtime); beyond 12 elements only the fact that it returns the sorted permutation under a strict total order is used (windowed streams)"]
+
+
+def reasm_spec(pid, judge, thm_file, extra_rule=""):
+    return dict(targets=["Properties/%s.vo" % pid], judge_targets=["Check/ChkReasm.vo"],
+                imports="Require Import Reassembler ChkReasm.\nLocal Open Scope Z_scope.",
+                case_type="rcase", judge=judge, shard=100, explore=explore_reasm,
+                discard_codes=[50], rule=REASM_RULE + extra_rule, assumptions=REASM_ASSUME)
+
+
 SPECS = {
     "C20": dict(
         targets=["Properties/C20.vo"], judge_targets=["Check/ChkC20.vo"],
@@ -81,4 +102,22 @@ SPECS = {
         assumptions=["gentables dumps the runtime tables of the same compiled code the library users get",
                      "reverseComparisonsTable is compared as an unordered pair per code (its operand order depends on Go map iteration; both orders are proved to re-encode to the code)"],
     ),
+    "C01": reasm_spec("C01", "judge_c01", "C01"),
+    "C02": reasm_spec("C02", "judge_c02", "C02"),
+    "C03": reasm_spec("C03", "judge_c03", "C03"),
+    "C10": reasm_spec("C10", "judge_c10", "C10"),
+    "C19": reasm_spec("C19", "judge_c19", "C19"),
+    "C11": dict(targets=["Properties/C11.vo"], judge_targets=["Check/ChkC11.vo"],
+                imports="Require Import Reassembler ReasmConc ChkC11.\nLocal Open Scope Z_scope.",
+                case_type="ccase", judge="judge_c11", shard=40, explore=lambda spec, res, a: explore_c11(spec, res, a),
+                rule="programs of 2-3 threads x 1-3 calls (PushMessage, Maintain, Close) with 0-2 re-entrant callback entries, maxInFlight in {0,1,2,5}, timeout 1h or -1s, "
+                     "each run under one forced schedule (random with bursts, then drained round-robin) at the granularity of the verif yield points; the model is run on the same schedule and must produce the same callbacks and return values in the same order. "
+                     "non-trivial = more than four observable events; distinct by case term",
+                assumptions=["sync.Mutex and sync/atomic behave as atomic steps (forced schedules serialise the goroutines between yield points)",
+                             "data-race freedom is a runtime fact: supported by a race-detector run in the thorough tier, not proved"]),
 }
+
+
+def explore_c11(spec, res, a):
+    n = 600 if a.tier == "quick" else 20000
+    return V.standard_explore(spec, res, a, [("h_conc", ["-seed", str(res.seed), "-n", str(n), "-stress", str(n)])])
